@@ -94,18 +94,12 @@ pub fn gen_decl(src: &mut Src, exclude_capture: bool) -> Decl {
         let idents = crate::pools::distinct(src, &pool, nv);
         let mut values: Vec<Value> = vec![];
         for id in idents {
-            let rename = if src.chance(90) { Some(src.text(VALUE_FRAGS, 2)) } else { None };
-            let v = Value { ident: id.to_string(), rename };
-            // no two values of one label with the same string (they would legitimately alias)
-            if values.iter().any(|o| o.string() == v.string()) {
-                let v2 = Value { ident: id.to_string(), rename: None };
-                if values.iter().any(|o| o.string() == v2.string()) {
-                    continue;
-                }
-                values.push(v2);
-            } else {
-                values.push(v);
+            let mut rename = if src.chance(90) { Some(src.text(VALUE_FRAGS, 2)) } else { None };
+            // two value names of one label may be given the same string: they are aliases of one child
+            if rename.is_some() && !values.is_empty() && src.chance(50) {
+                rename = Some(values[src.below(values.len())].string());
             }
+            values.push(Value { ident: id.to_string(), rename });
         }
         let enum_name = if src.chance(100) { Some(format!("E{}", li)) } else { None };
         labels.push(Label { name: ln.to_string(), enum_name, values });
@@ -308,6 +302,7 @@ pub fn emit_module(d: &Decl) -> String {
     }
     // expected children
     s.push_str("    let mut expected: std::collections::BTreeMap<Vec<(String, String)>, f64> = std::collections::BTreeMap::new();\n");
+    s.push_str("    let mut leaves_of: std::collections::BTreeMap<Vec<(String, String)>, u64> = std::collections::BTreeMap::new();\n");
     for (i, leaf) in lv.iter().enumerate() {
         let mut pairs: Vec<(String, String)> = leaf.iter().enumerate().map(|(li, vi)| (d.labels[li].name.clone(), d.labels[li].values[*vi].string())).collect();
         pairs.sort();
@@ -320,7 +315,8 @@ pub fn emit_module(d: &Decl) -> String {
             total += n * 1_000_000;
         }
         let lit: Vec<String> = pairs.iter().map(|(k, v)| format!("({}.to_string(), {}.to_string())", rust_str(k), rust_str(v))).collect();
-        s.push_str(&format!("    expected.insert(vec![{}], {}f64);\n", lit.join(", "), total));
+        s.push_str(&format!("    *expected.entry(vec![{}]).or_insert(0.0) += {}f64;\n", lit.join(", "), total));
+        s.push_str(&format!("    *leaves_of.entry(vec![{}]).or_insert(0) += 1;\n", lit.join(", ")));
     }
     s.push_str(&format!("    let paths_used: u64 = {};\n", paths_used));
     s.push_str(
@@ -332,8 +328,9 @@ pub fn emit_module(d: &Decl) -> String {
         if seen.insert(l.clone(), value_of(mm)).is_some() {
             fails.push(format!("child {:?} appears twice", l));
         }
-        if is_hist() && mm.get_histogram().get_sample_count() != paths_used {
-            fails.push(format!("child {:?} has {} observations, expected {}", l, mm.get_histogram().get_sample_count(), paths_used));
+        let want_n = paths_used * leaves_of.get(&l).copied().unwrap_or(1);
+        if is_hist() && mm.get_histogram().get_sample_count() != want_n {
+            fails.push(format!("child {:?} has {} observations, expected {}", l, mm.get_histogram().get_sample_count(), want_n));
         }
     }
     for (l, v) in &expected {
@@ -561,7 +558,7 @@ impl Property for C19 {
         "case = a macro declaration drawn from a grammar: make_static_metric! (Counter, IntCounter, Gauge, IntGauge, Histogram and \
          the three local types) or make_auto_flush_static_metric! (three local types, flush on every update or explicit flush \
          only), 1-4 labels with 1-4 values each, every label an inline list or a (possibly shared) label_enum, every value bare or \
-         renamed to a string from the adversarial fragment pool, identifiers from a pool that includes names likely to collide with \
+         renamed to a string from the adversarial fragment pool or to the string of an earlier value of the label (alias), identifiers from a pool that includes names likely to collide with \
          generated locals (x, m, root, inner, get, from, offset1, ...), and a generated permutation of the label order in the backing \
          vector. A batch of declarations is written as one crate (one module each) with a generated driver per declaration, built \
          against the working tree and run. Oracle: the backing vector has exactly one child per declared leaf, labelled with the \
@@ -667,6 +664,9 @@ impl Property for C19 {
                     stats.distinct_nontrivial.insert(key);
                 }
                 *stats.classes.entry(if d.auto_flush { "auto-flush" } else { "static" }).or_default() += 1;
+                if d.labels.iter().any(|l| l.values.iter().enumerate().any(|(i, v)| l.values[..i].iter().any(|o| o.string() == v.string()))) {
+                    *stats.classes.entry("two-value-names-share-one-string(alias)").or_default() += 1;
+                }
                 *stats.classes.entry(d.mtype).or_default() += 1;
                 if !captured_idents(d).is_empty() {
                     *stats.classes.entry("auto-flush-with-capturable-identifier").or_default() += 1;
